@@ -17,7 +17,7 @@ ASSUME = ["diagrams are abstracted to their shape (number of inputs; arity in/ou
           "what the pictures look like (pixels, fonts) is not decided; 'renders' = Diagram.draw returns without "
           "exception for the TikZ and matplotlib (Agg) back-ends",
           "bounded: all shapes within the model constants (sampled for replay/rendering in the quick tier)"]
-CONST = {"quick": {"MaxBoxes": 3, "MaxWidth": 3, "MaxAr": 3, "replay": 2500, "render": 120, "wide": (6, 5, 1500)},
+CONST = {"quick": {"MaxBoxes": 3, "MaxWidth": 3, "MaxAr": 3, "replay": 2500, "render": 120, "wide": (6, 5, 8000)},
          "thorough": {"MaxBoxes": 4, "MaxWidth": 4, "MaxAr": 3, "replay": 25000, "render": 1000, "wide": (7, 6, 12000)}}
 KIND = {"input": "in", "output": "out", "box": "box", "dom": "dom", "cod": "cod"}
 
